@@ -4,9 +4,9 @@ import VlsModel.Drv.Common
 /-
 Line-protocol driver for the payments model (property C06).
 
-  init <nch> <max_routing_fee_msat> <max_feerate_percentage> <cltv_delta>
-  keysend <h> <amount_msat> <now>
-  invoice <h> <amount_msat> <timestamp> <expiry> <id>
+  init <nch> <max_routing_fee_msat> <max_feerate_percentage> <cltv_delta> <velocity limit_msat> h|d|u
+  keysend <h> <amount_msat> <now>                 answers: true | false (velocity) | err | panic
+  invoice <h> <amount_msat> <now> <expiry> <tag>  a BOLT-11 invoice issued at <now>
   cpsign <c> new|retry <offered> <received>       HTLC lists: `-` or `h:value_sat:cltv,...`
   hval   <c> new|retry <offered> <received>
   revoke <c>
@@ -35,7 +35,7 @@ def payS (nch : Nat) (p : Payment) : String :=
     ++ s!":{optS p.cltvMin}:{optS p.cltvMax}:{if p.pre then 1 else 0}"
 
 def digest (n : Node) : String :=
-  " | ".intercalate ([0, 1, 2].map (fun h =>
+  s!"v={n.vc.mem.velocity} " ++ " | ".intercalate ([0, 1, 2].map (fun h =>
     let i := match n.invoices h with | some inv => toString inv.amount | none => "-"
     let p := match n.payments h with | some p => payS n.nch p | none => "-"
     s!"{i} {p}"))
@@ -60,28 +60,35 @@ def run (s : St) (op : Op) (okS : Bool → String) : St × String :=
 
 def commitS (acc : Bool) : String := if acc then "ok" else "err"
 
+def itype? : String → Option Velocity.IntervalType
+  | "h" => some .hourly | "d" => some .daily | "u" => some .unlimited | _ => none
+
+/-- an approval: the answer class comes from `Node.approve` (Ok(true) / Ok(false) / Err), the state from `Node.step` -/
+def approve (s : St) (h : Hash) (inv : Invoice) (now : Nat) : St × String :=
+  let cls := match (s.node.approve h inv now).2 with
+    | .added => "true" | .same => "true" | .declined => "false" | .different => "err" | .panic => "panic"
+  run s (.approve h inv now) (fun _ => cls)
+
 def step (s : St) (toks : List String) : St × String :=
   match toks with
-  | ["init", nch, mf, pct, cd] =>
-    match nat? nch, nat? mf, nat? pct, nat? cd with
-    | some nch, some mf, some pct, some cd =>
-      let n := Node.init nch ⟨mf, pct, cd⟩
+  | ["init", nch, mf, pct, cd, vl, vt] =>
+    match nat? nch, nat? mf, nat? pct, nat? cd, nat? vl, itype? vt with
+    | some nch, some mf, some pct, some cd, some vl, some vt =>
+      let n := Node.init nch ⟨mf, pct, cd⟩ ⟨vl, vt⟩
       (⟨n, false⟩, "ok " ++ digest n)
-    | _, _, _, _ => (s, "bad-op")
+    | _, _, _, _, _, _ => (s, "bad-op")
   | _ =>
   if s.dead then (s, "dead") else
   match toks with
   | ["keysend", h, amt, now] =>
     match nat? h, nat? amt, nat? now with
     | some h, some amt, some now =>
-      run s (.approve h ⟨amt, now + Gen.Payments.keysendExpiry + Gen.Payments.keysendPruneTime, h⟩)
-        (fun a => if a then "true" else "err")
+      approve s h ⟨amt, now + Gen.Payments.keysendExpiry + Gen.Payments.keysendPruneTime, [0, h]⟩ now
     | _, _, _ => (s, "bad-op")
   | ["invoice", h, amt, ts, exp, id] =>
     match nat? h, nat? amt, nat? ts, nat? exp, nat? id with
     | some h, some amt, some ts, some exp, some id =>
-      run s (.approve h ⟨amt, ts + exp + Gen.Payments.invoicePruneTime, id⟩)
-        (fun a => if a then "true" else "err")
+      approve s h ⟨amt, ts + exp + Gen.Payments.invoicePruneTime, [1, amt, ts, exp, id]⟩ ts
     | _, _, _, _, _ => (s, "bad-op")
   | ["cpsign", c, k, off, rcv] =>
     match nat? c, kind? k, htlcs? off, htlcs? rcv with
